@@ -175,6 +175,11 @@ class Unit:
         self.cfg = tomllib.load(open(cfgp, "rb"))
         self.props = self.cfg.get("properties", [])
         self.contracts = parse_contracts(os.path.join(self.dir, "contracts.vrs"))
+        # contracts shared with another unit (same real function under the same contract): only for functions this unit extracts
+        self.shared_contracts = {}
+        for other in self.cfg.get("include_contracts", []):
+            for k, v in parse_contracts(os.path.join(VERIF, "units", other, "contracts.vrs")).items():
+                self.shared_contracts.setdefault(k, v)
         self.rules_applied = {}
         self.dropped = []
         self.items = []
@@ -186,6 +191,7 @@ class Unit:
     # ---- extraction ----
     def extract(self):
         srcs = {}
+        self._shared_pending = True
         for s in self.cfg.get("source", []):
             f = s["file"]
             p = os.path.join(REPO, f)
@@ -209,6 +215,9 @@ class Unit:
                     self.items.append(it)
                 except (LostAnchor, L.LexError) as e:
                     self.lost.append(str(e))
+        for it in self.items:
+            if it.name not in self.contracts and it.name in self.shared_contracts:
+                self.contracts[it.name] = self.shared_contracts[it.name]
         self._auto_consts(srcs)
         return self.items
 
@@ -261,6 +270,9 @@ class Unit:
         if "R1" in enabled:
             t, n = R.r1_strip_attrs_comments(t, keep)
             self._count("R1", n)
+        if "R7" in enabled:
+            t, n = R.r7_expand_repo_macros(t, os.path.join(REPO, "p2panda-store/src/macros.rs"))
+            self._count("R7", n)
         for r in ("R2", "R5", "R4", "R6", "R16", "R17", "R17b", "R22", "R3", "R10", "R15", "R18", "R18b", "R20"):
             if r in enabled or (r == "R17b" and "R17" in enabled):
                 t, n = R.RULES[r](t)
